@@ -52,18 +52,25 @@ CONSTANTS
     DivideKeepsAll,     \* divideEntries puts every entry into exactly one part
     LandmarkOwnStream,  \* needsOpenGzEntries (C14; kept so that both modules agree on the decision)
     KeepLastDup,        \* importTar: of several entries with one name the LAST is kept (whatever its type)
-    ReservedByFullName  \* appendTar: the reserved TOC name is compared with the cleaned FULL path, not the base name
+    ReservedByFullName, \* appendTar: the reserved TOC name is compared with the cleaned FULL path, not the base name
+    RefuseUnknownType   \* appendTar: `default: return fmt.Errorf("unsupported input tar entry %q")` - e.g. a PAX global header
 
 NoPLm == ".no.prefetch.landmark"
 PLm   == ".prefetch.landmark"
 TOCName == "stargz.index.json"
 Ent(name, type, link, size, c, meta) == [name |-> name, type |-> type, link |-> link, size |-> size, c |-> c, meta |-> meta]
     \* c: content id; meta: the tar header metadata that must survive, [mode, uid, gid, mtime] (xattrs are not in the universe)
-Meta(m, u, g, t) == [mode |-> m, uid |-> u, gid |-> g, mtime |-> t]
-MetaA == Meta(493, 0, 0, 0)                       \* 0755 root, no mtime
-MetaB == Meta(448, 1000, 1000, 1700000000)        \* 0700 uid/gid 1000 with an mtime: what a repeated entry carries
-LmMeta == Meta(0, 0, 0, 0)                        \* the landmark header sortEntries makes
-NoMeta == Meta(0, 0, 0, 0)
+Meta(m, u, g, t) == [mode |-> m, uid |-> u, gid |-> g, mtime |-> t]   \* mtime: unix seconds as a decimal STRING (TLC integers are 32 bit)
+MetaA == Meta(493, 0, 0, "0")                       \* 0755 root, no mtime
+MetaB == Meta(448, 1000, 1000, "1700000000")        \* 0700 uid/gid 1000 with an mtime: what a repeated entry carries
+LmMeta == Meta(0, 0, 0, "0")                        \* the landmark header sortEntries makes
+NoMeta == Meta(0, 0, 0, "0")
+\* modification times around the places where formatModtime / the tar formats change behaviour (mtime 0 = the epoch = "none":
+\* a zero time.Time is written to a tar as 0, the TOC leaves modtime empty for both)
+MetaC == Meta(420, 0, 0, "-14182940")           \* 1969-07-20T20:17:40Z, before the epoch
+MetaD == Meta(493, 0, 0, "-2208988800")         \* 1900-01-01
+MetaE == Meta(420, 0, 0, "32503680000")            \* year 3000 (beyond what a USTAR header holds)
+TimedMetas == {MetaC, MetaD, MetaE}
 LmCid == "sha256:dc0e9c3658a1a3ed1ec94274d8b19925c93e1abb7ddba294923ad9bde30f8cb8"   \* SHA-256 of the landmark contents, the one byte 0x0f
 Min(a, b) == IF a < b THEN a ELSE b
 Range(s) == {s[i] : i \in 1..Len(s)}
@@ -90,8 +97,11 @@ EffOf(t) ==
         idx == SelectSeq([i \in 1..Len(t) |-> i], keep)
     IN  [k \in 1..Len(idx) |-> t[idx[k]]]
 LmEnt == Ent(NoPLm, "reg", "", 1, LmCid, LmMeta)
+\* a PAX global extended header ("xglobal", what `git archive` writes first) is not an entry of the file system: the lossy
+\* modes need not keep it, lossless must (or refuse the input)
 Expected(mode, t) ==
-    IF mode = "build" THEN <<LmEnt>> \o SelectSeq(EffOf(t), LAMBDA e : e.name # TOCName)
+    IF mode = "build" THEN <<LmEnt>> \o SelectSeq(EffOf(t), LAMBDA e : e.name # TOCName /\ e.type # "xglobal")
+    ELSE IF mode = "writer" THEN SelectSeq(t, LAMBDA e : e.name # TOCName /\ e.type # "xglobal")
     ELSE SelectSeq(t, LAMBDA e : e.name # TOCName)
 
 (* what the code writes - transcription of importTar's replace-if-present and appendTar's reserved-name test *)
@@ -105,10 +115,15 @@ ImportFrom(t, acc) ==
          IN  IF e.name \in {PLm, NoPLm} THEN ImportFrom(Tail(t), acc)
              ELSE IF had /\ ~KeepLastDup /\ e.type = "dir" THEN ImportFrom(Tail(t), acc)
              ELSE ImportFrom(Tail(t), Append(SelectSeq(acc, LAMBDA x : x.name # e.name), e))
-Reserved(e) == IF ReservedByFullName THEN e.name = TOCName ELSE Base(e.name) = TOCName
+Reserved(e) == \/ IF ReservedByFullName THEN e.name = TOCName ELSE Base(e.name) = TOCName
+               \/ (~RefuseUnknownType /\ e.type = "xglobal")       \* negative control: skipped (`continue`) instead of refused
 \* Build: sortEntries and divideEntries still see a reserved entry (it counts for the sizes of the parts); appendTar skips it
 Sorted(mode, t) == IF mode = "build" THEN <<LmEnt>> \o ImportFrom(t, <<>>) ELSE t
 Written(mode, t) == SelectSeq(Sorted(mode, t), LAMBDA e : ~Reserved(e))
+\* the type switch of appendTar knows dir, reg, (sym)link, char, block, fifo; anything else fails the whole run
+Refuses(mode, t) == RefuseUnknownType /\ \E i \in 1..Len(Sorted(mode, t)) : Sorted(mode, t)[i].type = "xglobal"   \* after importTar's folding of names (Build)
+RefusedLay == [refused |-> TRUE, order |-> <<>>, members |-> <<>>, toc |-> <<>>, expected |-> <<>>,
+               diffid |-> "", shaAll |-> "", tocdigest |-> "", shaToc |-> "", shaPayload |-> "", shaInput |-> ""]
 
 (* divideEntries *)
 RECURSIVE SumSizes(_)
@@ -217,6 +232,17 @@ AddDir(dup) ==
                                 ELSE Ent(Names[Len(input) + 1], "dir", "", 0, "c", MetaA))
     /\ UNCHANGED <<phase, opt, lay>>
 \* files whose name is, or merely ends in, a reserved name
+\* a file (directory for the year 1900) with an unusual modification time
+AddTimed(m) ==
+    /\ phase = "in" /\ Len(input) < MaxEntries
+    /\ input' = Append(input, IF m = MetaD THEN Ent(Names[Len(input) + 1], "dir", "", 0, "c", m)
+                                ELSE Ent(Names[Len(input) + 1], "reg", "", 1, "c", m))
+    /\ UNCHANGED <<phase, opt, lay>>
+\* a PAX global extended header as the first thing in the tar
+AddGlobal ==
+    /\ phase = "in" /\ Len(input) = 0 /\ MaxEntries > 0
+    /\ input' = <<Ent("pax_global_header", "xglobal", "", 0, "c", NoMeta)>>
+    /\ UNCHANGED <<phase, opt, lay>>
 Specials == {"sub/stargz.index.json", "sub/.prefetch.landmark", "sub/.no.prefetch.landmark", TOCName}
 AddSpecial(nm) ==
     /\ phase = "in" /\ Len(input) < MaxEntries
@@ -241,13 +267,14 @@ HeldAt(members, off, inner, n) ==
 
 Run(op, enough) ==
     /\ phase = "in" /\ phase' = "done" /\ opt' = op
-    /\ LET o == Written(op.mode, input)
+    /\ IF Refuses(op.mode, input) THEN lay' = RefusedLay ELSE
+       LET o == Written(op.mode, input)
            hdr == [i \in 1..Len(o) |-> 512]
            csz == <<2, 3, 4, 2, 3, 4, 2, 3, 4, 2, 3, 4, 2, 3, 4, 2, 3, 4, 2, 3, 4, 2, 3, 4, 2, 3, 4, 2, 3, 4, 2, 3, 4, 2, 3, 4, 2, 3, 4, 2>>
            r == WriterRun(Sorted(op.mode, input), hdr, op, enough, csz, 1024)
            n(t) == IF t.cs # 0 THEN t.cs ELSE o[t.i].size - t.o
            hs == ConcatAll([g \in 1..Len(r.members) |-> SelectSeq(r.members[g].items, LAMBDA it : it.k = "h")])
-       IN lay' = [order |-> [j \in 1..Len(hs) |-> o[hs[j].i]],
+       IN lay' = [refused |-> FALSE, order |-> [j \in 1..Len(hs) |-> o[hs[j].i]],
                   members |-> [g \in 1..Len(r.members) |-> [s |-> r.members[g].s, e |-> r.members[g].e]],
                   toc |-> [j \in 1..Len(r.toc) |-> LET t == r.toc[j] IN
                              [name |-> o[t.i].name, type |-> t.type, size |-> t.size,
@@ -258,13 +285,17 @@ Run(op, enough) ==
                               cd  |-> IF t.type = "chunk" \/ (t.type = "reg" /\ t.size > 0) THEN <<t.i, t.o, n(t)>> ELSE <<>>,
                               fd  |-> <<t.i>>, fsrc |-> <<t.i>>]],
                   expected |-> Expected(op.mode, input),
-                  diffid |-> "x", shaAll |-> "x", tocdigest |-> "y", shaToc |-> "y", shaPayload |-> "z", shaInput |-> "z"]
+                  diffid |-> "x", shaAll |-> "x", tocdigest |-> "y", shaToc |-> "y", \* lossless: the payload is the input, byte for byte - in the model: name for name
+                  shaPayload |-> IF op.mode = "lossless" THEN [j \in 1..Len(o) |-> o[j].name] ELSE <<>>,
+                  shaInput |-> IF op.mode = "lossless" THEN [j \in 1..Len(input) |-> input[j].name] ELSE <<>>]
     /\ UNCHANGED input
 
 AddAny ==
     \/ \E sz \in Sizes, dup \in BOOLEAN : AddFile(sz, dup)
     \/ \E dup \in BOOLEAN : AddDir(dup)
     \/ \E nm \in Specials : AddSpecial(nm)
+    \/ \E m \in TimedMetas : AddTimed(m)
+    \/ AddGlobal
 Next ==
     \/ AddAny
     \/ \E m \in Modes, mo \in MinOnSet, w \in WorkerSet :
@@ -288,7 +319,7 @@ Spec == Init /\ [][Next]_vars
 -----------------------------------------------------------------------------
 (* The C03 formulas, over `lay` only (model: abstract content ids = (entry, offset, length) triples;       *)
 (* monitor: SHA-256 strings computed by the independent reader of the driver).                             *)
-Done == phase = "done"
+Done == phase = "done" /\ ~lay.refused      \* a refused input yields no blob: nothing to index, nothing lost silently
 T == lay.toc
 DataRows == {j \in 1..Len(T) : T[j].data}
 Len0(t) == IF t.cs # 0 THEN t.cs ELSE (LET regs == {j \in 1..Len(T) : T[j].type = "reg" /\ T[j].name = t.name} IN
